@@ -14,14 +14,20 @@ import trace as tr
 
 MODULE = "DfolsVerif.Properties.C08"
 BUILD_TARGETS = ss.ACCEPT_TARGETS
-THEOREMS = ["Dfols.C08.C08_finite_kept", "Dfols.C08.C08_budget", "Dfols.C08.C08_exception", "Dfols.C08.C08_returned_x_evaluated"]
+def pre_build(ctx):
+    import gen_exitsites
+    ctx.cov["exit_creation_sites_in_repo"] = gen_exitsites.regenerate(ctx)
+
+
+THEOREMS = [
+    "Dfols.C08.C08_src_fault_exits","Dfols.C08.C08_finite_kept", "Dfols.C08.C08_budget", "Dfols.C08.C08_exception", "Dfols.C08.C08_returned_x_evaluated"]
 LEVEL = "proof"
 TRUSTED_EXTRA = [
     "that the numerics after a fault never raise (LAPACK / NumPy errors on non-finite data) is NOT a theorem: fault enumeration on the real code",
     "C08_finite_kept is for runs without averaging and without a regulariser; with averaging the search checks finiteness only",
 ]
 KINDS = ["nan", "inf", "-inf", "huge", "raise", "raise-linalg", "raise-value", "raise-overflow"]
-ALLOW = ("bounds", "proj", "avg", "soft", "hard", "npt", "diag")
+ALLOW = ("bounds", "proj", "avg", "soft", "hard", "npt", "diag", "growing", "scaling")
 
 
 def raise_site(exc):
